@@ -14,7 +14,7 @@ from fractions import Fraction
 import numpy as np
 
 from symx import core, harness, loader, runner, diff
-from symx.explore import Explorer
+from symx.explore import Explorer, PathError
 from . import common_gemini as cg
 
 PROP = "C02"
@@ -45,10 +45,14 @@ def job(label, n, Kc, timeout_q=20.0, max_paths=3000):
         return S, G, S0, P
 
     ex = Explorer(max_paths=max_paths)
-    for (S, G, S0, P), pc, trace in ex.run(body, setup):
+    for out, pc, trace in ex.run(body, setup):
         res["paths"] += 1
         kind, ovo = st["kind"], st["ovo"]
         tag = f"{label}/n{n}K{Kc}/path{res['paths']}"
+        if isinstance(out, PathError):
+            _path_error(res, out, pc, tag, label, n, Kc, "grad")
+            continue
+        S, G, S0, P = out
         S = _scalar(S)
         S0 = _scalar(S0)
         v, wmodel = harness.reachable(pc, timeout_s=8.0)
@@ -68,13 +72,13 @@ def job(label, n, Kc, timeout_q=20.0, max_paths=3000):
         res["queries"] += 1
         res["obligations"].append(_strip(o))
         if o["verdict"] == "sat":
-            _report(res, label, n, Kc, o, "score-differs-with-return_grad", tag)
+            _report(res, label, n, Kc, o, "score-differs-with-return_grad", tag, pc)
         flatG = [core.to_rat(x) for x in G.reshape(-1)]
         dres = harness.check_defined([S] + flatG, pc, name=tag + "/defined")
         res["queries"] += dres.get("n_guards", 0)
         res["obligations"].append(_strip(dres))
         if dres["verdict"] == "sat":
-            _report(res, label, n, Kc, dres, "undefined", tag)
+            _report(res, label, n, Kc, dres, "undefined", tag, pc)
         for i in range(n):
             for k in range(Kc - 1):
                 x = st["base"][i][k]
@@ -87,7 +91,7 @@ def job(label, n, Kc, timeout_q=20.0, max_paths=3000):
                     res["samples"].append({"obligation": o["name"], "verdict": o["verdict"], "how": o.get("how"), "pc_size": len(pc),
                                            "grad_term": repr(lhs)[:140]})
                 if o["verdict"] == "sat":
-                    _report(res, label, n, Kc, o, f"grad", tag)
+                    _report(res, label, n, Kc, o, "grad", tag, pc)
         if wmodel is not None and kind != "w":
             ok = _validate(label, n, Kc, kind, S, flatG, wmodel)
             if ok is not None:
@@ -133,9 +137,12 @@ def job_clip(label, n, Kc, max_paths=600, timeout_q=15.0):
         if out is None:
             continue
         res["paths"] += 1
+        tag = f"{label}/clip/n{n}K{Kc}/path{res['paths']}"
+        if isinstance(out, PathError):
+            _path_error(res, out, pc, tag, label, n, Kc, "grad-clipped")
+            continue
         mask, G, S = out
         S = _scalar(S)
-        tag = f"{label}/clip/n{n}K{Kc}/path{res['paths']}"
         G = np.asarray(G, dtype=object)
         bad = []
         for i in range(n):
@@ -185,6 +192,23 @@ def job_clip(label, n, Kc, max_paths=600, timeout_q=15.0):
     return res
 
 
+def _path_error(res, err, pc, tag, label, n, Kc, kind):
+    """the engine could not execute this path: concrete comparison at a witness of the path instead"""
+    v, wmodel = harness.reachable(pc, timeout_s=10.0)
+    if v == "unsat":
+        return
+    res["obligations"].append({"name": tag + "/path-error", "verdict": "inconclusive", "how": repr(err)[:200]})
+    if v == "sat":
+        rep = {"label": label, "n": n, "K": Kc, "kind": kind, "model": {k: str(x) for k, x in wmodel.items() if k[0] in "pam"}}
+        try:
+            bad = replay(rep)
+        except Exception as e:
+            bad = True
+            rep["exception"] = f"{type(e).__name__}: {e}"
+        if bad:
+            res["violations"].append({"signature": f"{PROP}:{_base(label)}:grad", "what": f"{label}: gradient is not the derivative of the score (concrete fallback, n={n},K={Kc})", "replay": rep})
+
+
 def _base(label):
     return label.replace("reg:", "")
 
@@ -199,16 +223,34 @@ def _strip(o):
     return {k: v for k, v in o.items() if k != "model"}
 
 
-def _report(res, label, n, Kc, o, what, tag):
+def _report(res, label, n, Kc, o, what, tag, pc=None):
     model = o.get("model")
     if not model:
         res["obligations"][-1]["verdict"] = "inconclusive"
         return
-    rep = {"label": label, "n": n, "K": Kc, "kind": "grad", "model": {k: str(v) for k, v in model.items() if k[0] in "pam"}}
-    if replay(rep):
-        res["violations"].append({"signature": f"{PROP}:{_base(label)}:{what}", "what": f"{label}: {what} at n={n},K={Kc} ({o['name']})", "replay": rep})
-    else:
-        res["obligations"][-1]["verdict"] = "inconclusive"
+    cands = [{k: str(v) for k, v in model.items() if k[0] in "pam"}]
+    # the solver's point may be degenerate for the abstracted parts (transport plans, radicals): also try a few generic
+    # points that satisfy the same path condition -- the obligation failed for the whole path, any of them may show it
+    import random
+    rng = random.Random(11)
+    for _ in range(200):
+        if len(cands) >= 30:
+            break
+        m = dict(cands[0])
+        for i in range(n):
+            w = [rng.uniform(0.05, 1.0) for _ in range(Kc)]
+            t = sum(w)
+            for k in range(Kc - 1):
+                m[f"p_{i}_{k}"] = str(Fraction(w[k] / t).limit_denominator(1000))
+        ok = harness.pc_holds(pc or [], {k: Fraction(v) for k, v in m.items()})
+        if ok is True or (ok is None and not pc):
+            cands.append(m)
+    for m in cands:
+        rep = {"label": label, "n": n, "K": Kc, "kind": "grad", "model": m}
+        if replay(rep):
+            res["violations"].append({"signature": f"{PROP}:{_base(label)}:{what}", "what": f"{label}: {what} at n={n},K={Kc} ({o['name']})", "replay": rep})
+            return
+    res["obligations"][-1]["verdict"] = "inconclusive"
 
 
 def _validate(label, n, Kc, kind, S, flatG, model):
@@ -245,8 +287,17 @@ def replay(rep, verbose=False):
     clipped_mode = rep.get("kind") == "grad-clipped"
     if not clipped_mode and (P.min() <= 1e-6 or P.max() >= 1 - 1e-6):
         return False
-    if clipped_mode:
-        return _replay_clipped(gem, P, A, n, Kc, verbose)
+    for Ac in cg.affinity_candidates(kind, n, A):
+        if clipped_mode:
+            bad = _replay_clipped(gem, P, Ac, n, Kc, verbose)
+        else:
+            bad = _replay_fd(gem, P, Ac, n, Kc, verbose)
+        if bad:
+            return True
+    return False
+
+
+def _replay_fd(gem, P, A, n, Kc, verbose):
     S, G = gem.evaluate(P.copy(), A, return_grad=True)
     S0 = gem.evaluate(P.copy(), A, return_grad=False)
     if abs(float(S) - float(S0)) > 1e-9 * max(1.0, abs(float(S))):
